@@ -449,17 +449,23 @@ func main() {
 				switch {
 				case g.plain == "panic" && v == "fault":
 					o.Count("tuple:both-fail")
+				case g.swallow && v != g.plain:
+					// the compiled catch block of a deferred call without recover() ends the panic: from there on the
+					// VM execution has nothing to do with Go's any more (returns zero values / misses return values)
+					o.Count("tuple:MISMATCH")
+					o.Fail(key("defer-swallows-panic"), k, "%s%v: a deferred call without recover ran while panicking; go %s, VM %s %s", e.Name, t, g.plain, v, cr.vmerr[tk])
 				case g.plain == "panic":
 					o.Count("tuple:MISMATCH")
 					o.Fail(key("go-panics-vm-returns"), k, "%s%v: go panics, VM %s", e.Name, t, v)
-				case strings.HasPrefix(v, "stack:") && g.rec:
-					// a panic was recovered while operands were on the evaluation stack: they stay there
-					o.Count("tuple:MISMATCH")
-					o.Fail(key("recover-stale-stack"), k, "%s%v: go recovers a panic and returns %s, VM halts with %s items on the stack", e.Name, t, g.plain, v[6:])
-				case v == "fault" && g.rtrec:
+				case v == "fault" && g.rtrec && !strings.Contains(cr.vmerr[tk], "index out of range [-1]"):
 					// Go recovered a run-time error; NeoVM FAULTs are not catchable
 					o.Count("tuple:MISMATCH")
 					o.Fail(key("recover-runtime-error"), k, "%s%v: go recovers a run-time error and returns %s, VM FAULT (%s)", e.Name, t, g.plain, cr.vmerr[tk])
+				case g.rec && v != g.plain:
+					// a panic was recovered while operands were on the evaluation stack: they stay there, and a catch
+					// block that is not the outermost one pushes no return values (the stale items or nothing are returned)
+					o.Count("tuple:MISMATCH")
+					o.Fail(key("recover-stale-stack"), k, "%s%v: go recovers a panic and returns %s, VM %s %s", e.Name, t, g.plain, v, cr.vmerr[tk])
 				case v == "fault":
 					o.Count("tuple:MISMATCH")
 					o.Fail(key("vm-faults-go-returns"), k, "%s%v: go %s, VM FAULT (%s)", e.Name, t, g.plain, cr.vmerr[tk])
